@@ -48,8 +48,8 @@ ASSUMPTIONS = [
     "the DEK blob itself is produced on the device and is not part of the image; decryption uses the DEK file SPSDK read or wrote",
     "certificates and the SRK table are input material built with `cryptography` / spsdk's SrkTable; the table is additionally compared with an own encoder",
 ]
-FLOORS = {"flags:8": 0.2, "flags:c": 0.1, "flags:0": 0.03, "kt:rsa": 0.15, "kt:ec": 0.1, "dcd": 0.08, "xmcd": 0.015, "mode:family": 0.25,
-          "nocak": 0.015, "dek:random": 0.01, "nonce:given": 0.02, "app:unaligned": 0.2}
+FLOORS = {"flags:8": 0.08, "flags:c": 0.04, "flags:0": 0.012, "kt:rsa": 0.06, "kt:ec": 0.04, "dcd": 0.032, "xmcd": 0.006, "mode:family": 0.1,
+          "nocak": 0.006, "dek:random": 0.004, "nonce:given": 0.008, "app:unaligned": 0.08}
 
 FIX = os.path.join(VERIF_DIR, "fixtures", "c07")
 EXPLICIT_PAIRS = [(0x0, 0x100), (0x0, 0x400), (0x0, 0x2000), (0x400, 0x1000), (0x1000, 0x2000)]
